@@ -239,10 +239,21 @@ def impl_mll_deleted(ds, pattern):
     return v, mean[0], cov[0]
 
 
+def ylit(yflat):
+    return "[" + "; ".join("None" if v != v else "Some %s" % C.qc_lit(v) for v in yflat) + "]"
+
+
 def coq_case(N, tt, KJ, mu, S, yflat):
-    ys = "[" + "; ".join("None" if v != v else "Some %s" % C.qc_lit(v) for v in yflat) + "]"
-    return "(%d%%nat, %d%%nat, %s, %s, %s, %s, %s)" % (N, tt, C.qc_mat(KJ), C.qc_vec(mu), C.qc_mat(S), ys,
+    return "(%d%%nat, %d%%nat, %s, %s, %s, %s)" % (N, tt, C.qc_mat(KJ), C.qc_vec(mu), C.qc_mat(S), ylit(yflat))
+
+
+def coq_case_fill(N, tt, KJ, mu, S, yflat):
+    return "(%d%%nat, %d%%nat, %s, %s, %s, %s, %s)" % (N, tt, C.qc_mat(KJ), C.qc_vec(mu), C.qc_mat(S), ylit(yflat),
                                                        C.qc_lit(FILL))
+
+
+def coq_case_coded(N, tt, KJ, S):
+    return "(%d%%nat, %d%%nat, %s, %s)" % (N, tt, C.qc_mat(KJ), C.qc_mat(S))
 
 
 def decode(r, tt):
@@ -251,12 +262,57 @@ def decode(r, tt):
         return None
     d = dict(k=rd.int())
     d["del_mean"] = rd.qs(tt); d["del_cov"] = rd.qmat(tt, tt)
-    d["mask_mean"] = rd.qs(tt); d["fill_mean"] = rd.qs(tt)
-    d["coded_cov"] = rd.qmat(tt, tt); d["mask_cov"] = rd.qmat(tt, tt); d["fill_cov"] = rd.qmat(tt, tt)
+    d["mask_mean"] = rd.qs(tt); d["mask_cov"] = rd.qmat(tt, tt)
     d["logprob"] = float(rd.expr())
-    d["hist_fm"] = rd.qs(tt); d["hist_mfmf"] = rd.qs(tt)
     assert rd.done()
     return d
+
+
+def decode_fill(r, tt):
+    rd = C.Reader(r)
+    if rd.int() != 1:
+        return None
+    d = dict(fill_mean=rd.qs(tt), fill_cov=rd.qmat(tt, tt), hist_fm=rd.qs(tt), hist_mfmf=rd.qs(tt))
+    assert rd.done()
+    return d
+
+
+def decode_coded(r, tt):
+    rd = C.Reader(r)
+    if rd.int() != 1:
+        return None
+    return rd.qmat(tt, tt)
+
+
+def balanced(terms, costs, bins=16):
+    """order the Coq cases so that contiguous shards of equal size carry similar cost; returns
+    (permuted terms, shard size, inverse map: position of original case i in the permuted list)"""
+    n = len(terms)
+    if n == 0:
+        return [], 1, []
+    bins = min(bins, n)
+    order = sorted(range(n), key=lambda i: -costs[i])
+    size = (n + bins - 1) // bins
+    slots = [[] for _ in range(bins)]
+    for r, i in enumerate(order):   # snake order over the bins
+        rnd, pos = divmod(r, bins)
+        slots[pos if rnd % 2 == 0 else bins - 1 - pos].append(i)
+    flat, where = [], {}
+    for sl in slots:
+        for i in sl:
+            where[i] = len(flat)
+            flat.append(terms[i])
+        while len(flat) % size and sl is not slots[-1]:
+            flat.append(terms[order[-1]])     # pad with the cheapest case
+    return flat, size, [where[i] for i in range(n)]
+
+
+def run_coq(tag, run_def, terms, costs, bins=16):
+    flat, size, where = balanced(terms, costs, bins)
+    if not flat:
+        return []
+    res = C.coq_run_cases(tag, IMPORTS, run_def, flat, shard=size)
+    return [res[w] for w in where]
 
 
 def vec_close(a, b, tol):
@@ -365,11 +421,15 @@ def check_mll(out, ds, pattern, models):
                      model=dict(mean=flt(m["del_mean"]), cov=flt(m["del_cov"])))
 
 
-def model_self_check(out, ds, pattern, m, b, which):
+def model_self_check(out, ds, pattern, m, b):
     """the theorems say these coincide; a disagreement here means the build is inconsistent"""
     desc = dict(ds=ds, pattern=pattern, b=b)
-    if m["mask_mean"] != m["del_mean"] or m["fill_mean"] != m["del_mean"] or m["mask_cov"] != m["del_cov"] \
-            or m["fill_cov"] != m["del_cov"] or m["hist_fm"] != m["del_mean"] or m["hist_mfmf"] != m["del_mean"]:
+    bad = m["mask_mean"] != m["del_mean"] or m["mask_cov"] != m["del_cov"]
+    f = m.get("fillrun")
+    if f is not None:
+        bad = bad or f["fill_mean"] != m["del_mean"] or f["fill_cov"] != m["del_cov"] \
+            or f["hist_fm"] != m["del_mean"] or f["hist_mfmf"] != m["del_mean"]
+    if bad:
         out.fail("model:self-consistency", "executable model contradicts its theorems (exact rationals differ)", desc,
                  no_input=True)
 
@@ -493,21 +553,69 @@ def plan(tier, rng):
     return dsl
 
 
-def run_models(tag, ds, priors, pats):
-    """one Coq case per distinct (batch element, effective pattern)"""
-    tt = ds["t"] * ds["T"]
-    yb = [torch.tensor(ds["y"]).reshape(ds["B"] or 1, -1)[b].tolist() for b in range(ds["B"] or 1)]
-    need = {}
+def ybatch(ds):
+    B = ds["B"] or 1
+    return [torch.tensor(ds["y"]).reshape(B, -1)[b].tolist() for b in range(B)]
+
+
+def needed(ds, pats):
+    """distinct (batch element, effective pattern) pairs"""
+    need = set()
     for pattern in pats:
         for b, eff in enumerate(effective(ds, pattern)):
             for pol in ("mask", "fill"):
-                need.setdefault((b, tuple(eff[pol])), None)
-    keys = sorted(need)
-    terms = []
-    for b, p in keys:
-        KJ, mu, S = priors[b]
-        terms.append(coq_case(ds["N"], tt, KJ, mu, S, [NAN if miss else v for v, miss in zip(yb[b], p)]))
-    return keys, terms
+                need.add((b, tuple(eff[pol])))
+    return sorted(need)
+
+
+def run_all_models(tag, work, rng, fill_budget):
+    """work: list of (ds, pats).  Returns per work item dict[(b, pattern)] -> decoded model with
+    'coded_cov' and (for a subset: every pattern on N <= 4, a sample above) 'fillrun' attached."""
+    t_m, c_m, t_f, c_f, t_c, c_c, idx = [], [], [], [], [], [], []
+    for ds, pats in work:
+        N, tt = ds["N"], ds["t"] * ds["T"]
+        priors, yb = impl_prior(ds), ybatch(ds)
+        keys = needed(ds, pats)
+        big = [k for k in keys if N > 4]
+        chosen = set(k for k in keys if N <= 4) | set(rng.sample(big, min(len(big), fill_budget)))
+        ent = dict(keys=keys, m0=len(t_m), f={}, c0=len(t_c))
+        for b, p in keys:
+            KJ, mu, S = priors[b]
+            y = [NAN if miss else v for v, miss in zip(yb[b], p)]
+            k = N - sum(p)
+            t_m.append(coq_case(N, tt, KJ, mu, S, y)); c_m.append(k ** 4 + 1)
+            if (b, p) in chosen:
+                ent["f"][(b, p)] = len(t_f)
+                t_f.append(coq_case_fill(N, tt, KJ, mu, S, y)); c_f.append(k ** 4 + N ** 3 + 1)
+        for b in range(ds["B"] or 1):
+            KJ, mu, S = priors[b]
+            t_c.append(coq_case_coded(N, tt, KJ, S)); c_c.append(N ** 4 + 1)
+        idx.append(ent)
+    # one coqc batch: the three run functions go to separate files but are launched together
+    from concurrent.futures import ThreadPoolExecutor
+    r_m = run_coq(tag, RUN_DEF, t_m, c_m)
+    with ThreadPoolExecutor(2) as ex:
+        ff = ex.submit(run_coq, tag + "f", RUN_DEF_F, t_f, c_f, 10)
+        fc = ex.submit(run_coq, tag + "c", RUN_DEF_C, t_c, c_c, 6)
+        r_f, r_c = ff.result(), fc.result()
+    outl = []
+    for (ds, pats), ent in zip(work, idx):
+        tt = ds["t"] * ds["T"]
+        dec = {}
+        for j, key in enumerate(ent["keys"]):
+            d = decode(r_m[ent["m0"] + j], tt)
+            coded = decode_coded(r_c[ent["c0"] + key[0]], tt)
+            if d is not None and coded is not None:
+                d["coded_cov"] = coded
+                if key in ent["f"]:
+                    d["fillrun"] = decode_fill(r_f[ent["f"][key]], tt)
+                    if d["fillrun"] is None:
+                        d = None
+            else:
+                d = None
+            dec[key] = d
+        outl.append(dec)
+    return outl
 
 
 def run(out, ctx):
@@ -517,26 +625,18 @@ def run(out, ctx):
     dsl = plan(tier, rng)
     out.rule = ("per data set (families gaussian / fixed-noise / with priors / multitask T=2 / batch B=2; n up to %d "
                 "train points) ALL NaN patterns on the flattened targets except all-missing (batch: pairs of patterns, "
-                "capped); each under policies mask/fill x histories %s on one model object x fast_pred_var off/on; "
-                "non-trivial = at least one missing value and the deletion covariance differs from the no-mask "
-                "covariance by > 1e-6" % (5 if tier == "quick" else 6, ["/".join(h) for h in HISTORIES]))
+                "capped); each under policies mask/fill, every step of the histories %s on one model object, "
+                "fast_pred_var off/on; non-trivial = at least one missing value and the deletion covariance differs "
+                "from the no-mask covariance by > 1e-6" % (5 if tier == "quick" else 6, ["/".join(h) for h in HISTORIES]))
     out.extra["tolerances"] = {"dense": TOL, "fast_pred_var (full-rank Lanczos)": TOL_FPV, "gaussian terms": 1e-9}
-    all_terms, index = [], []
-    exhaustive = True
-    for di, ds in enumerate(dsl):
+    work, exhaustive = [], True
+    for ds in dsl:
         pats, ex = patterns_for(ds, rng, tier)
         exhaustive = exhaustive and ex
-        priors = impl_prior(ds)
-        keys, terms = run_models("C16", ds, priors, pats)
-        index.append((ds, pats, keys, len(all_terms)))
-        all_terms += terms
-    shard = max(1, (len(all_terms) + 15) // 16)
-    res = C.coq_run_cases("C16", IMPORTS, RUN_DEF, all_terms, shard=shard)
-    for ds, pats, keys, off in index:
+        work.append((ds, pats))
+    decs = run_all_models("C16", work, rng, 4 if tier == "quick" else 12)
+    for (ds, pats), dec in zip(work, decs):
         tt = ds["t"] * ds["T"]
-        dec = {}
-        for j, key in enumerate(keys):
-            dec[key] = decode(res[off + j], tt)
         for pattern in pats:
             nmiss = sum(sum(p) for p in pattern)
             desc = dict(fam=ds["fam"], n=ds["n"], T=ds["T"], B=ds["B"], pattern=pattern)
@@ -549,7 +649,7 @@ def run(out, ctx):
                     bad = True
                     break
                 for pol in ("mask", "fill"):
-                    model_self_check(out, ds, pattern, d[pol], b, pol)
+                    model_self_check(out, ds, pattern, d[pol], b)
                 models.append(d)
             if bad:
                 continue
@@ -584,11 +684,7 @@ def replay(path):
         gauss_check(out, case, r)
     else:
         ds, pattern = case["ds"], case["pattern"]
-        priors = impl_prior(ds)
-        keys, terms = run_models("C16_replay", ds, priors, [pattern])
-        res = C.coq_run_cases("C16_replay", IMPORTS, RUN_DEF, terms)
-        tt = ds["t"] * ds["T"]
-        dec = {k: decode(r, tt) for k, r in zip(keys, res)}
+        dec = run_all_models("C16_replay", [(ds, [pattern])], random.Random(0), 100)[0]
         models = [{pol: dec[(b, tuple(eff[pol]))] for pol in ("mask", "fill")} for b, eff in enumerate(effective(ds, pattern))]
         for b, m in enumerate(models):
             for pol in ("mask", "fill"):
